@@ -20,7 +20,10 @@ type V1 struct {
 	memory  *v1controller
 	pids    *v1controller
 
-	all []*v1controller
+	// all controllers of this cgroup; created are those whose directory was
+	// created (rather than found) by this handle and is removed by Destroy
+	all     []*v1controller
+	created []*v1controller
 
 	existing bool
 }
@@ -74,7 +77,7 @@ func (c *V1) New(name string) (cg Cgroup, err error) {
 	}
 	defer func() {
 		if err != nil {
-			for _, v := range v1.all {
+			for _, v := range v1.created {
 				remove(v.path)
 			}
 		}
@@ -100,12 +103,14 @@ func (c *V1) New(name string) (cg Cgroup, err error) {
 			if len(v1.all) == 0 {
 				v1.existing = true
 			}
+			v1.all = append(v1.all, *v.new)
 			continue
 		}
 		if err != nil {
 			return
 		}
 		v1.all = append(v1.all, *v.new)
+		v1.created = append(v1.created, *v.new)
 	}
 	// init cpu set before use, otherwise it is not functional
 	if v1.cpuset != nil {
@@ -140,7 +145,7 @@ func (c *V1) Nest(name string) (Cgroup, error) {
 // Destroy removes dir for controllers recursively, errors are ignored if remove one failed
 func (c *V1) Destroy() error {
 	var err1 error
-	for _, s := range c.all {
+	for _, s := range c.created {
 		if c.existing {
 			continue
 		}
